@@ -257,9 +257,18 @@ def has_outage(script):
 
 
 def race_key(stderr):
-    """stable name of a race report: the first function of the client that appears in the first report"""
+    """stable name of a race report: of the two conflicting accesses of the first report take the client's function on top of each
+    stack and name the race after the alphabetically first one (which access is 'previous' differs from run to run)"""
     blk = stderr[stderr.index("WARNING: DATA RACE"):]
-    blk = blk[:blk.index("==================", 10)] if "==================" in blk[10:] else blk[:6000]
+    blk = blk[:blk.index("==================", 10)] if "==================" in blk[10:] else blk[:8000]
+    tops = []
+    for sec in re.split(r"\n\s*\n", blk):
+        if re.match(r"\s*(WARNING: DATA RACE\n)?\s*(Read|Write|Previous read|Previous write|Atomic|Previous atomic)", sec):
+            m = re.search(r"tongo/(liteclient\.[^\s(]*(?:\([^)]*\))?[^\s(]*)\(", sec)
+            if m:
+                tops.append(m.group(1))
+    if tops:
+        return "C12:data-race:" + sorted(tops)[0]
     m = re.search(r"tongo/(liteclient\.[^\s(]*(?:\([^)]*\))?[^\s(]*)\(", blk)
     if m:
         return "C12:data-race:" + m.group(1)
